@@ -554,7 +554,7 @@ def split_laziness(r, n_cases):
                     self.i += k
                     pulled[0] = self.i // sw
                     return k
-            old_stdin = aio.sys.stdin
+            old_stdin = sys.stdin
             try:
                 if kind == "source":
                     gen = auditok.split(Counting(data, rate, sw, 1), analysis_window=aw, **kw)
@@ -563,7 +563,7 @@ def split_laziness(r, n_cases):
                 else:
                     class FakeStdin:
                         buffer = _io.BufferedReader(CountingStdin(), buffer_size=sw * W)
-                    aio.sys.stdin = FakeStdin
+                    sys.stdin = FakeStdin
                     gen = auditok.split("-", analysis_window=aw, sr=rate, sw=sw, ch=1, **kw)
                 regs = []
                 for reg in gen:
@@ -571,7 +571,7 @@ def split_laziness(r, n_cases):
             except Exception as e:   # noqa
                 regs = "raised %s: %s" % (type(e).__name__, e)
             finally:
-                aio.sys.stdin = old_stdin
+                sys.stdin = old_stdin
             evals += 1
             if isinstance(regs, str):
                 continue
